@@ -423,7 +423,7 @@ def _case_tree(run, rng, quick, case_seed, icase):
 
     # ---- reduced density matrices and entropies
     _rdm_checks(case, run, rng, ctx, a, psi, pre, "")
-    if a2 is not None and rng.random() < 0.5:
+    if a2 is not None and rng.random() < 0.4:
         _rdm_checks(case, run, rng, dict(ctx, spec=spec2, tree=tree2), a2, psi, L.preorder_ids(spec2), "child-order:")
 
     # ---- random walk of the orthogonality centre and two-site update
@@ -544,6 +544,12 @@ def _rdm_checks(case, run, rng, ctx, a, psi, pre, prefix):
     cls = _cls(ctx)
     phys = ctx["phys"]
     n = len(pre)
+    # every calc_* call rebuilds all environments; with arity >= 4 or many nodes opt_einsum's path
+    # search dominates, so on such trees each function is exercised with probability 1/2
+    heavy = n >= 7 or max(len(c) for c in spec["children"]) >= 4
+
+    def skip():
+        return heavy and rng.random() < 0.5
 
     def axes_of_node(k):
         return [phys.index(b) for b in spec["groups"][pre[k]] if b in phys]
@@ -561,7 +567,7 @@ def _rdm_checks(case, run, rng, ctx, a, psi, pre, prefix):
     else:
         keys = sorted({int(x) for x in rng.integers(0, n, size=2)})
         arg = list(keys)
-    ok, rdm = case.call(prefix + "calc_1site_rdm", cls, lambda: a.calc_1site_rdm(arg))
+    ok, rdm = (False, None) if skip() else case.call(prefix + "calc_1site_rdm", cls, lambda: a.calc_1site_rdm(arg))
     if ok:
         for k in keys:
             ref = L.partial_trace_rdm(psi, axes_of_node(k)).reshape(dims_of_node(k) * 2)
@@ -570,7 +576,7 @@ def _rdm_checks(case, run, rng, ctx, a, psi, pre, prefix):
                 break
             if not case.close(prefix + "calc_1site_rdm", cls, rdm[k], ref, TOL_RING * 10, node_index=k):
                 break
-    ok, ent = case.call(prefix + "calc_1site_entropy", cls, lambda: a.calc_1site_entropy(arg))
+    ok, ent = (False, None) if skip() else case.call(prefix + "calc_1site_entropy", cls, lambda: a.calc_1site_entropy(arg))
     if ok:
         for k in keys:
             ax = axes_of_node(k)
@@ -590,13 +596,13 @@ def _rdm_checks(case, run, rng, ctx, a, psi, pre, prefix):
     arg = None if rng.random() < 0.3 else (pick[0] if rng.random() < 0.3 else pick)
     want = dofs if arg is None else (pick if isinstance(arg, list) else [arg])
     skip_default_dummy = arg is None and any(d["kind"] == "dummy" for d in descs)
-    ok, rdm = case.call(prefix + "calc_1dof_rdm", cls, lambda: a.calc_1dof_rdm(arg))
+    ok, rdm = (False, None) if skip() else case.call(prefix + "calc_1dof_rdm", cls, lambda: a.calc_1dof_rdm(arg))
     if ok:
         for d in want:
             ref = L.partial_trace_rdm(psi, [phys.index(dof_of[d])])
             if not case.close(prefix + "calc_1dof_rdm", cls, rdm[d], ref, TOL_RING * 10, dof=str(d)):
                 break
-    ok, ent = case.call(prefix + "calc_1dof_entropy", cls, lambda: a.calc_1dof_entropy(pick))
+    ok, ent = (False, None) if skip() else case.call(prefix + "calc_1dof_entropy", cls, lambda: a.calc_1dof_entropy(pick))
     if ok:
         for d in pick:
             w = np.linalg.eigvalsh(L.partial_trace_rdm(psi, [phys.index(dof_of[d])]))
@@ -611,14 +617,14 @@ def _rdm_checks(case, run, rng, ctx, a, psi, pre, prefix):
             pairs.append((i, j))
         arg = pairs[0] if rng.random() < 0.3 else pairs
         want = [pairs[0]] if isinstance(arg, tuple) else pairs
-        ok, rdm = case.call(prefix + "calc_2site_rdm", cls, lambda: a.calc_2site_rdm(arg))
+        ok, rdm = (False, None) if skip() else case.call(prefix + "calc_2site_rdm", cls, lambda: a.calc_2site_rdm(arg))
         if ok:
             for (i, j) in want:
                 ref = L.partial_trace_rdm(psi, axes_of_node(i) + axes_of_node(j))
                 ref = ref.reshape((dims_of_node(i) + dims_of_node(j)) * 2)
                 if not case.close(prefix + "calc_2site_rdm", cls, rdm[(i, j)], ref, TOL_RING * 10, pair=[i, j]):
                     break
-        ok, ent = case.call(prefix + "calc_2site_entropy", cls, lambda: a.calc_2site_entropy(arg))
+        ok, ent = (False, None) if skip() else case.call(prefix + "calc_2site_entropy", cls, lambda: a.calc_2site_entropy(arg))
         if ok:
             for (i, j) in want:
                 ax = axes_of_node(i) + axes_of_node(j)
@@ -645,7 +651,7 @@ def _rdm_checks(case, run, rng, ctx, a, psi, pre, prefix):
         dpairs = list(dict.fromkeys(dpairs))
         arg = dpairs[0] if rng.random() < 0.3 else dpairs
         want = [dpairs[0]] if isinstance(arg, tuple) else dpairs
-        ok, rdm = case.call(prefix + "calc_2dof_rdm", cls, lambda: a.calc_2dof_rdm(arg))
+        ok, rdm = (False, None) if skip() else case.call(prefix + "calc_2dof_rdm", cls, lambda: a.calc_2dof_rdm(arg))
         refs = {}
         for (d1, d2) in want:
             refs[(d1, d2)] = L.partial_trace_rdm(psi, [phys.index(dof_of[d1]), phys.index(dof_of[d2])])
@@ -653,7 +659,7 @@ def _rdm_checks(case, run, rng, ctx, a, psi, pre, prefix):
             for key in want:
                 if not case.close(prefix + "calc_2dof_rdm", cls, rdm[key], refs[key], TOL_RING * 10, dofs=[str(x) for x in key]):
                     break
-        ok, res = case.call(prefix + "calc_2dof_mutual_info", cls, lambda: a.calc_2dof_mutual_info(arg))
+        ok, res = (False, None) if skip() else case.call(prefix + "calc_2dof_mutual_info", cls, lambda: a.calc_2dof_mutual_info(arg))
         if ok:
             mi, (e1, e2) = res
             for key in want:
@@ -1019,11 +1025,11 @@ def replay(run, obj, quick=True):
 
 def search(run, rng, quick):
     t0 = time.time()
-    budget = 50.0 if quick else 540.0
-    plan = [("tree", _case_tree, 30 if quick else 420),
-            ("library-states", _case_library_states, 9 if quick else 90),
-            ("from_mps", _case_from_mps, 9 if quick else 90),
-            ("history", _case_history, 9 if quick else 120)]
+    budget = 45.0 if quick else 520.0
+    plan = [("tree", _case_tree, 45 if quick else 800),
+            ("library-states", _case_library_states, 12 if quick else 150),
+            ("from_mps", _case_from_mps, 12 if quick else 150),
+            ("history", _case_history, 12 if quick else 200)]
     evaluations = 0
     nontrivial = set()
     stopped = False
